@@ -31,7 +31,7 @@ def build(h: history.History, rng: random.Random) -> Dict[str, Any]:
     transaction with aged files, an in-commit manifest protected by a marker."""
     # the failed commit leaves an uncommitted metadata file carrying the SAME version number as the
     # last committed one (what a crashed or beaten writer leaves behind)
-    for op in [("append", 2), ("append", 1), ("append", 2), ("delete", 1), ("fail_commit", 1), ("append", 1)]:
+    for op in [("append", 2), ("multi", [1, 1]), ("append", 2), ("delete", 1), ("fail_commit", 1), ("append", 1)]:
         out = h.apply(op)
         if op[0] == "fail_commit":
             assert not out["ok"], out
